@@ -31,7 +31,9 @@ def feature_spec():
                        P("color", "query", {"type": "string", "enum": ["red", "dark blue"]}),
                        P("csv", "query", arr(S), explode=False), P("exp", "query", arr(S), explode=True), P("dflt", "query", arr(I)),
                        P("sp", "query", arr(S), style="spaceDelimited", explode=False), P("pipe", "query", arr(S), style="pipeDelimited", explode=False),
-                       P("sp2", "query", arr(S), style="spaceDelimited"), P("pipe2", "query", arr(S), style="pipeDelimited")],   # explode defaults to false for these styles
+                       P("sp2", "query", arr(S), style="spaceDelimited"), P("pipe2", "query", arr(S), style="pipeDelimited"),
+                       P("nums", "query", arr(I), explode=False), P("pnums", "query", arr({"type": "integer", "format": "int32"}), style="pipeDelimited"),
+                       P("flags", "query", arr(B), explode=False)],   # explode defaults to false for these styles
                        "responses": ok}},
         "/headers": {"put": {"operationId": "put_headers", "parameters": [
             P("X-Trace-Id", "header", S, required=True), P("X-Count", "header", I), P("X-Flag", "header", B), P("X-List", "header", arr(S)),
@@ -81,6 +83,9 @@ def probes():
             out.append(("get_query", {"req": "r", nm: vs}, None))
     for vs in ([1], [1, -2, 3], []):
         out.append(("get_query", {"req": "r", "dflt": vs}, None))
+        out.append(("get_query", {"req": "r", "nums": vs}, None))
+        out.append(("get_query", {"req": "r", "pnums": vs}, None))
+    out.append(("get_query", {"req": "r", "flags": [True, False]}, None))
     out.append(("put_headers", {"X-Trace-Id": "t-1"}, None))
     out.append(("put_headers", {"X-Trace-Id": "abc def;=,", "X-Count": -5, "X-Flag": True, "X-List": ["a", "b c"], "x-lower": "v"}, None))
     out.append(("put_headers", {"X-Trace-Id": "t", "X-List": []}, None))
